@@ -840,6 +840,59 @@ func C03(c *core.Ctx) {
 		c.Floor("R3.10", "optional config fields stored into the model by "+mk, nOpt, 2)
 	}
 
+	// ---- R3.11 (known-wrong form only) a skip that ends exactly at the end of the input
+	// succeeds: in the loop of WireReader.Skip that carries the position over segment
+	// boundaries, "position at or past the end of the segment" (non-strict) must not be
+	// combined with an error return when the segments run out — then skipping the last
+	// element of a segmented wire (an Interest ending in HopLimit) fails although the same
+	// bytes in one buffer decode. That another formulation is right is arithmetic and is
+	// not decided.
+	if sk := c.Fn("R3.11", "std/encoding", "WireReader", "Skip"); sk != nil {
+		nonStrict, failsInLoop := false, false
+		var at ssa.Instruction
+		core.Instrs(sk, func(in ssa.Instruction) {
+			iff, ok := in.(*ssa.If)
+			if !ok || !core.InLoop(in.Block()) {
+				return
+			}
+			op, x, y, okC := core.Cmp(iff.Cond)
+			if !okC {
+				return
+			}
+			_, xPos := core.FieldOf(core.StripConv(x), "pos")
+			_, yLen := core.LenOf(core.StripConv(y))
+			_, yPos := core.FieldOf(core.StripConv(y), "pos")
+			_, xLen := core.LenOf(core.StripConv(x))
+			if (xPos && yLen && op == token.GEQ) || (yPos && xLen && op == token.LEQ) {
+				if loopHeader(in.Block()) == in.Block() || true {
+					nonStrict = true
+					at = in
+				}
+			}
+		})
+		core.Instrs(sk, func(in ssa.Instruction) {
+			r, ok := in.(*ssa.Return)
+			if !ok || len(r.Results) != 1 || core.IsNilConst(core.Strip(r.Results[0])) {
+				return
+			}
+			if core.InLoop(in.Block()) || func() bool {
+				for _, pr := range in.Block().Preds {
+					if core.InLoop(pr) {
+						return true
+					}
+				}
+				return false
+			}() {
+				failsInLoop = true
+			}
+		})
+		if nonStrict && failsInLoop {
+			c.Viol("R3.11", "skip-to-exact-end-succeeds", c.Pos(at), "WireReader.Skip carries the position over a segment boundary already when it has reached the END of the segment, and returns an error when no segment follows: a skip that ends exactly at the end of the last segment fails, so a packet whose last element is skipped or read that way (an Interest ending in HopLimit) decodes from one buffer but not from the same bytes split into segments")
+		} else {
+			c.Ok("R3.11", "skip-to-exact-end-succeeds", p.Pos(sk.Pos()), "the known-wrong combination (non-strict boundary test + error when the segments run out) is absent")
+		}
+	}
+
 	// ---- R3.6 the segmented reader steps over EVERY exhausted segment: a wire may hold
 	// empty segments, also several in a row (the no-copy encoder emits one for an empty
 	// content buffer). Every store that advances a WireReader's segment index inside a
